@@ -222,6 +222,21 @@ def _book(sheets, names, cached=None):
     return _Book(out, {n: Rec(name=n, value=t, hidden=None) for n, t in (names or {}).items()})
 
 
+class WorkbookFailed(Exception):
+    """Raised by the harness when the library itself fails on a witness every property takes for granted (compiling a well-formed
+    workbook); the runner reports it as a violation at the named function."""
+    as_violation = True
+
+    def __init__(self, module, function, why):
+        Exception.__init__(self, why)
+        self.module, self.function, self.why = module, function, why
+
+
+def _short(cells, limit=420):
+    text = repr(cells)
+    return text if len(text) <= limit else text[:limit] + ' ...'
+
+
 class Workbook:
     def __init__(self, ctx, cells=None, models=None, world=None, sheets=None, names=None, cached=None):
         self.ctx = ctx
@@ -247,6 +262,11 @@ class Workbook:
             out = self._run(mm, {}, 'c = ModelCompiler()\nreturn c.read_and_parse_archive("witness.xlsx")')
         else:
             out = self._run(mm, {'d': dict(cells)}, 'c = ModelCompiler()\nreturn c.read_and_parse_dict(d)')
+        if out.end == 'raise':
+            # a well-formed workbook that cannot be compiled: the library refuses what the property says it computes
+            shown = dict(cells) if cells is not None else {k: v for k, v in (sheets or {}).items()}
+            raise WorkbookFailed('model', 'ModelCompiler.read_and_parse_dict' if sheets is None else 'ModelCompiler.read_and_parse_archive',
+                                 f'compiling the well-formed witness workbook {_short(shown)} ends in the Python exception {out.value!r}')
         if out.end != 'return' or not isinstance(out.value, Rec):
             raise Unmodelled(f'compiling the witness workbook ends in {out.end} {out.value!r}')
         self.model = out.value
